@@ -138,6 +138,15 @@ Definition rel_hyp (from to : str) : bool :=
   Bool.eqb (starts_with_sep from) (starts_with_sep to) &&
   negb (has_dotdot (snd (normalise (components from)))).
 
+(* The wider class in which a lexical answer exists: `from` may keep leading '..' as long as `to` keeps at least as
+   many (the answer climbs to where `from` escaped to, then further, then down; with fewer in `to` one would have to
+   come back down below a '..', by a name no lexical function has).  In a normal form every '..' is a leading one. *)
+Definition count_dotdot (cs : list str) : nat := length (filter (fun c => str_eqb c DOTDOT) cs).
+
+Definition rel_hyp_wide (from to : str) : bool :=
+  Bool.eqb (starts_with_sep from) (starts_with_sep to) &&
+  (count_dotdot (snd (normalise (components from))) <=? count_dotdot (snd (normalise (components to))))%nat.
+
 (* `from` with the answer r appended (the empty `from` is the current directory) *)
 Definition rel_joined (from r : str) : str :=
   match from with [] => r | _ => from ++ 47 :: r end.
